@@ -53,6 +53,77 @@ pub fn run(rep: &mut Rep) {
     al.writer_stall = false;
     rep.note("the same with Receive Maximum 1 and Maximum Packet Size 64 announced in CONNACK and 300-byte publishes in the alphabet (before and after the drop)");
     explore_world(rep, "exhlim", depth, &move || World::boot(WorldCfg { seed, receive_max: Some(1), max_packet: Some(64), ..Default::default() }), &al);
+    // many operations and streams pending at the drop
+    let ns: Vec<usize> = if rep.quick() { vec![9, 17, 33, 65, 129, 300] } else { vec![7, 8, 9, 15, 16, 17, 31, 32, 33, 63, 64, 65, 127, 128, 129, 255, 256, 257, 1000] };
+    rep.note(&format!("wide: {:?} operations of every kind pending in every phase (unpolled, queued behind a stalled writer, awaiting their acknowledgement, between the QoS 2 phases, acknowledged but unpolled) and a sixth as many streams with 0-40 buffered messages when the context is dropped", ns));
+    let mut widx = 40_000_000u64;
+    for (ni, &n) in ns.iter().enumerate() {
+        for variant in 0..2u8 {
+            let id = format!("wide:{n}:{variant}");
+            widx += 1;
+            if !rep.take(widx, &id) {
+                continue;
+            }
+            let mut w = World::boot(WorldCfg { seed: rep.seed.wrapping_add(ni as u64), ..Default::default() });
+            w.sim.log_enabled = n <= 40;
+            let kinds = [Kind::Pub1, Kind::Pub2, Kind::Sub, Kind::Ping, Kind::Unsub, Kind::Pub0, Kind::Pub2];
+            let mut subs = Vec::new();
+            for j in 0..n {
+                let k = kinds[j % kinds.len()];
+                if j % 11 == 10 {
+                    w.create(j % 2, k);
+                    continue;
+                }
+                let i = w.start(j % 2, k);
+                w.settle();
+                if k == Kind::Sub && w.m[i].req_wire.is_some() && subs.len() <= n / 6 {
+                    w.deliver_ack(i, 1, 0, 0);
+                    w.settle();
+                    w.take_stream(i);
+                    subs.push(i);
+                } else if k == Kind::Pub2 && j % 2 == 0 && w.m[i].req_wire.is_some() {
+                    w.deliver_ack(i, 1, 0, 0);
+                    w.settle();
+                }
+            }
+            w.settle_check();
+            // messages for the streams, left unread by half of them
+            for (j, &sidx) in subs.iter().enumerate() {
+                if let Some(s) = w.m[sidx].stream {
+                    w.sim.streams[s].held = j % 2 == 0;
+                }
+                let sid = w.m[sidx].sub_id.unwrap_or(1);
+                for q in 0..(j * 7 % 41) {
+                    w.in_publish((q % 2) as u8, 1 + q as u16, false, &[sid], false);
+                    w.settle();
+                }
+            }
+            w.settle_check();
+            if variant == 1 {
+                // the last requests stay queued: the writer accepts nothing
+                w.sim.stall_writer();
+                for j in 0..(n / 4).max(2) {
+                    w.start(j % 2, kinds[j % kinds.len()]);
+                }
+                w.settle_check();
+            }
+            w.drop_ctx();
+            w.settle_check();
+            for j in 0..4 {
+                w.start(j % 2, kinds[j]);
+            }
+            w.settle_check();
+            finish(&mut w);
+            rep.add("evaluations", 1);
+            rep.add("wide_cases", 1);
+            rep.max("max_operations_pending_at_drop", n as i64);
+            rep.distinct(&("wide", n, variant));
+            if super::harvest(rep, &mut w, &id) == 0 {
+                rep.sample(|| format!("{id}: {} ContextExited results, {} stream items compared", w.counters.ctx_exited_seen, w.counters.stream_items_checked));
+            }
+            super::add_counters(rep, &w);
+        }
+    }
     let mut wa = a.clone();
     wa.max_ops = 30;
     wa.max_conc = 6;
